@@ -1492,7 +1492,12 @@ class DocutilsRenderer(RendererProtocol):
         """Despite the name, this is actually a footnote definition, e.g. `[^a]: ...`"""
         target = token.meta["label"]
 
-        if target in self.document.nameids:
+        if any(
+            target in footnote["names"] or target in footnote["dupnames"]
+            for footnote in (self.document.footnotes + self.document.autofootnotes)
+        ):
+            # (only an earlier footnote definition makes this one a duplicate,
+            # not e.g. a heading or target that happens to have the same name)
             # note we chose to directly omit these footnotes in the parser,
             # rather than let docutils/sphinx handle them, since otherwise you end up with a confusing warning:
             # WARNING: Duplicate explicit target name: "x". [docutils]
